@@ -46,7 +46,7 @@ func init() {
 		Rule: "case = interleaved history of Add, queries and Merge on dataset.Dataset (duplicates, negatives, unsorted arrival, additions after queries, merges of two datasets), reference = the harness's own sorted copy; Lower/UpperQuantile must equal the order statistic at floor/ceil of q(n-1) " +
 			"(rank accepted both as the float product and as the exact product), Quantile == lower, NaN when empty or q outside [0,1], Min/Max/Count exact, Sum within the compensated-sum bound, Merge == adding all values. Non-trivial = history with an addition after a query and a merge; distinct = hash of the history.",
 		Cases:       core.Scale(120000, 3000000),
-		Mandatory:   []string{"oracle.quantile_checks", "event.add_after_query", "event.merge", "oracle.nan_checks", "oracle.sum_checks"},
+		Mandatory:   []string{"oracle.quantile_checks", "event.add_after_query", "event.merge", "oracle.nan_checks", "oracle.sum_checks", "oracle.minmax_before_quantile_queries", "sign_mode.all_negative", "adversarial_sum_cases"},
 		Assumptions: []string{"q = NaN is outside the stated domain and not sent"},
 		Run:         runC20,
 	})
@@ -515,7 +515,27 @@ func runC20(c *core.Ctx) {
 	others := []*ds{}
 	queried := false
 	addAfterQuery, merged := false, false
-	drawValue := func() float64 {
+	// sign mode of the case: mixed, all negative, all positive; and an adversarial summation mode
+	signMode := r.Pick(6, 2, 2)
+	adversarial := r.P(0.03)
+	advBig, advSmall := 0x1p53, 1.0
+	if r.Bool() {
+		advBig, advSmall = 1, 1e-17
+	}
+	advN := 0
+	c.Count("sign_mode."+[]string{"mixed", "all_negative", "all_positive"}[signMode], 1)
+	if adversarial {
+		c.Count("adversarial_sum_cases", 1)
+	}
+	drawValue0 := func() float64 {
+		if adversarial {
+			// a large value first, then many small ones that do not move the running sum individually
+			advN++
+			if advN == 1 {
+				return advBig
+			}
+			return advSmall
+		}
 		switch r.Pick(4, 3, 2, 1) {
 		case 0:
 			return float64(r.Range(-20, 20))
@@ -530,12 +550,36 @@ func runC20(c *core.Ctx) {
 			return []float64{0, math.Copysign(0, -1), 1e300, -1e300, 5e-324, 1, -1}[r.Intn(7)]
 		}
 	}
+	drawValue := func() float64 {
+		v := drawValue0()
+		switch signMode {
+		case 1:
+			if v == 0 {
+				v = 1
+			}
+			return -math.Abs(v)
+		case 2:
+			return math.Abs(v)
+		}
+		return v
+	}
 	check := func(d *ds, name string) {
 		sorted := append([]float64{}, d.ref...)
 		sort.Float64s(sorted)
 		n := len(sorted)
 		if got := d.d.Count; got != float64(n) {
 			c.Failf("count", "%s.Count=%v after %d additions", name, got, n)
+		}
+		if n > 0 && r.Bool() {
+			// extremes asked before any quantile query (the values may not be sorted yet)
+			var mn, mx float64
+			if c.Guard("minmax", func() { mn, mx = d.d.Min(), d.d.Max() }) {
+				return
+			}
+			c.Count("oracle.minmax_before_quantile_queries", 1)
+			if mn != sorted[0] || mx != sorted[n-1] {
+				c.Failf("minmax", "%s: Min/Max = %v/%v asked before any quantile query, want %v/%v", name, mn, mx, sorted[0], sorted[n-1])
+			}
 		}
 		qs := []float64{0, 1, 0.5, r.Float(), r.Float()}
 		if n > 1 {
@@ -603,6 +647,9 @@ func runC20(c *core.Ctx) {
 		queried = true
 	}
 	n := r.Range(1, 80)
+	if adversarial {
+		n = r.Range(300, 1500)
+	}
 	for i := 0; i < n && !c.Failed(); i++ {
 		switch r.Pick(10, 4, 2, 1) {
 		case 0:
